@@ -2,6 +2,7 @@ package protocol
 
 import (
 	"github.com/enfein/mieru/v3/pkg/common"
+	"github.com/enfein/mieru/v3/pkg/metrics"
 )
 
 // H1.3 one Session.Read from an arbitrary receive state: the bytes returned are
@@ -63,8 +64,15 @@ func vH_C01_read_step() {
 	bl := int(vNondetU8("buf.len"))
 	vAssume(bl <= 4)
 	b := make([]byte, 4)[:bl]
+	acct := &vCountMetric{}
+	if !isClient {
+		s.uploadBytes = acct // a server session accounts what it hands to its application (C19 H19.2)
+	}
 	n, err := s.Read(b)
 	vAssert(err == nil, "Read with data available does not fail")
+	if !isClient {
+		vAssert(acct.added == int64(n) && acct.calls <= 1, "every byte a server session hands to its application is counted once against the session's user (also bytes served from the left-over buffer)")
+	}
 	if bl == 0 {
 		vAssert(n == 0, "zero-length read returns 0")
 	} else {
@@ -96,3 +104,16 @@ func vH_C01_read_step() {
 	}
 	vAssert(pos == total, "no byte is lost or duplicated")
 }
+
+
+// vCountMetric is a metrics.Metric that records what is added to it.
+type vCountMetric struct {
+	added int64
+	calls int
+}
+
+func (m *vCountMetric) Name() string            { return "verif" }
+func (m *vCountMetric) Type() metrics.MetricType { return metrics.COUNTER_TIME_SERIES }
+func (m *vCountMetric) Add(delta int64) int64   { m.added += delta; m.calls++; return m.added }
+func (m *vCountMetric) Load() int64             { return m.added }
+func (m *vCountMetric) Store(val int64)         {}
